@@ -183,6 +183,9 @@ PRETTY_SELECTORS = part(selgen.general_pool() + [
     '[a=b]', ':nth-child(-n+3)', ':nth-child(-2n-1 of .a)', '[a="x,y" i]', '[a="(\'"]', '[type="a b"]', '[a^="]"]',
     'a:not([b$="}{"], :is(c, d))', ':-soup-contains("a, b", "c\'d")', '[a="\\\\"]', 'x|a[x|b]', ':lang("de-*", en)',
     '[a="\\a "]', ':-soup-contains("  ")', '.\\31 23', '#\\-a',
+    # values long enough for CPython to truncate the repr of the compiled pattern (200 characters)
+    'img[src="' + 'https://example.org/a-b/c.d?e=f&g=h+i/' * 5 + '"]', '[a^="' + '(x|y)*' * 40 + '"]', '[a~="' + "q'" * 120 + '"]',
+    '[a="' + '\\\\' * 150 + '"], [b="c"]', 'p:is([a*="' + '.+' * 130 + '" i], b) > c',
 ])
 NPS = len(PRETTY_SELECTORS)
 CUSTOM = {':--h': 'h1, h2', ':--p': 'p:--h'}
